@@ -59,6 +59,41 @@ EventBoundaryRaw ==
      /\ C.mesh[E.bnd.p] = BoundaryRaw(E.bnd).nominal
      /\ AxisEquiv(Rots(C), E.bnd.j, E.bnd.p)
 
+(* ---- handed-out q-points lie in the first Brillouin zone (fit_in_BZ, the default) ------------- *)
+(* E.bz = [on, G, D, B, qv]: G an integer multiple of the Gram matrix of the reciprocal basis   *)
+(* (exact: Adj of the catalogue crystal's Gram matrix), qv[k] the handed-out q-point k times D   *)
+(* (NOT reduced modulo D).  As in BZReloc.tla (X01): q is a shortest member of its class q + G   *)
+(* in Cartesian reciprocal space, up to the tolerance the relocation routines document           *)
+(* (0.01 min |b_i / m_i|^2 for the grid relocation of spglib, 0.01 min |b_i|^2 for phonopy's      *)
+(* get_qpoints_in_Brillouin_zone used with generic shifts); ties are allowed.  With y = G q:      *)
+(*   |q + n|^2 - |q|^2 = (2 y.n + D n^T G n) / D   (in units of 1/D).                             *)
+BzBox(B) == {<<n1, n2, n3>> : n1 \in -B..B, n2 \in -B..B, n3 \in -B..B}
+BzTolOK(gain, G, D, m) ==
+  (* gain = D (|q|^2 - |q + n|^2) >= 0 in units of 1/D^2 *)
+  IF Generic THEN 100 * gain < MinOf({G[1][1], G[2][2], G[3][3]}) * D
+             ELSE \A i \in I3 : 100 * gain * m[i] * m[i] < G[i][i] * D
+ReqQInFirstZone(bz, m) ==
+  LET box == BzBox(bz.B)
+      qn == Materialize([n \in box |-> bz.D * QForm(bz.G, n)])
+  IN  \A k \in 1..Len(bz.qv) :
+         LET y == MatVec(bz.G, bz.qv[k])
+         IN  \A n \in box : LET gain == -(2 * Dot(y, n) + qn[n]) IN gain <= 0 \/ BzTolOK(gain, bz.G, bz.D, m)
+ImplQInFirstZone == (AtEnd /\ E.bz.on) => ReqQInFirstZone(E.bz, E.mesh)
+(* the handed-out points are the logged qx modulo reciprocal lattice vectors *)
+ImplQvCongruent ==
+  (AtEnd /\ E.bz.on /\ Len(E.bz.qv) = Len(E.res.qx)) =>
+     LET q == QMod(C, E.mesh)
+     IN  \A k \in 1..Len(E.bz.qv) :
+            \A i \in I3 : (E.bz.qv[k][i] * (q \div E.bz.D)) % q = E.res.qx[k][i]
+(* machinery: no translate outside the box is shorter than the handed-out point (Cauchy-Schwarz    *)
+(* bound of ShortestVectors.tla / BZReloc.tla), so the box decides                                 *)
+EventBzBoxSound ==
+  (AtEnd /\ E.bz.on) =>
+     /\ QMod(C, E.mesh) % E.bz.D = 0
+     /\ \A k \in 1..Len(E.bz.qv) : \A i \in I3 :
+           LET w == E.bz.D * (E.bz.B + 1) - Abs(E.bz.qv[k][i])
+           IN  w > 0 /\ w * w * Det(E.bz.G) > QForm(E.bz.G, E.bz.qv[k]) * Adj(E.bz.G)[i][i]
+
 (* ---- requirement on the logged result *)
 ImplMeshIsRequested == AtEnd => E.mesh = RM
 (* length-specified mesh: equivalent axes carry equal numbers, with mesh symmetry on and off *)
